@@ -126,7 +126,25 @@ type Script struct {
 	CertificateThreshold uint64
 	// StateRoot, when non-nil, is what the application computes: Commit fails unless ExpectedStateRoot equals it.
 	StateRoot []byte
+	// ComputeStateRoot (opt-in, used by the C15 acceptance runs; off = unchanged behaviour): the application derives the
+	// state root itself, RootOf(previous root, IDs of the transactions executed since InitStateMachine): Commit returns it,
+	// and fails when a non-empty ExpectedStateRoot differs from it.
+	ComputeStateRoot bool
 }
+
+// RootOf is the state root the double computes with Script.ComputeStateRoot.
+func RootOf(prev []byte, txIDs [][]byte) []byte {
+	h := sha256.New()
+	h.Write([]byte("verif-app-state"))
+	h.Write(prev)
+	for _, id := range txIDs {
+		h.Write(id)
+	}
+	return h.Sum(nil)
+}
+
+// NoteTx records a transaction as executed in the current block (for callers that answer ExecuteTransaction themselves).
+func (m *ABI) NoteTx(id []byte) { m.executed = append(m.executed, append([]byte{}, id...)) }
 
 // AllEvents returns the events the block execution will produce, in order, for nTx transactions (fresh copies, indexed).
 func (s *Script) AllEvents(nTx int) []*blockchain.Event {
@@ -160,6 +178,7 @@ type ABI struct {
 	Reverts  int                             // successful Revert calls so far
 	AppRoot  []byte                          // state root the "application" holds committed (last Commit / Revert target)
 	txCursor int
+	executed [][]byte // IDs executed since InitStateMachine (Script.ComputeStateRoot)
 }
 
 func (m *ABI) s() *Script {
@@ -188,6 +207,7 @@ func (m *ABI) Init(req *labi.InitRequest) (*labi.InitResponse, error) {
 func (m *ABI) InitStateMachine(req *labi.InitStateMachineRequest) (*labi.InitStateMachineResponse, error) {
 	m.log("InitStateMachine")
 	m.txCursor = 0
+	m.executed = nil
 	if m.OnInit != nil {
 		m.OnInit(req.Header)
 	}
@@ -248,6 +268,9 @@ func (m *ABI) ExecuteTransaction(req *labi.ExecuteTransactionRequest) (*labi.Exe
 	if i < len(m.s().TxEvents) {
 		evs = cpEvents(m.s().TxEvents[i])
 	}
+	if req.Transaction != nil {
+		m.NoteTx(req.Transaction.ID)
+	}
 	return &labi.ExecuteTransactionResponse{Result: labi.TxExecuteResultSuccess, Events: evs}, nil
 }
 func (m *ABI) Commit(req *labi.CommitRequest) (*labi.CommitResponse, error) {
@@ -257,6 +280,17 @@ func (m *ABI) Commit(req *labi.CommitRequest) (*labi.CommitResponse, error) {
 	}
 	if m.s().StateRoot != nil && !bytes.Equal(m.s().StateRoot, req.ExpectedStateRoot) {
 		return nil, fmt.Errorf("abi-double: state root mismatch")
+	}
+	if m.s().ComputeStateRoot {
+		root := RootOf(req.StateRoot, m.executed)
+		if len(req.ExpectedStateRoot) > 0 && !bytes.Equal(root, req.ExpectedStateRoot) {
+			return nil, fmt.Errorf("abi-double: state root mismatch")
+		}
+		if !req.DryRun {
+			m.Commits++
+			m.AppRoot = append([]byte{}, root...)
+		}
+		return &labi.CommitResponse{StateRoot: root}, nil
 	}
 	if !req.DryRun {
 		m.Commits++
